@@ -5,6 +5,7 @@ import (
 	"math/big"
 	"sort"
 	"strings"
+	"sync"
 )
 
 // Script is the SMT-LIB text of one verification condition context (one function under
@@ -21,6 +22,10 @@ type Script struct {
 	ufDecls []string
 	binder  int // >0: terms may mention bound variables, so nothing is named at top level
 	bridge  map[int]bool // widths for which nat<N> / bvof<N> (bit-vector <-> Int) are used
+	info     []lineInfo
+	defSyms  map[string][]string
+	declared map[string]bool
+	mu       sync.Mutex
 }
 
 func newScript(bv bool) *Script {
@@ -263,6 +268,15 @@ func (s *Script) header(abstract bool) []string {
 	}
 	sort.Ints(ws)
 	for _, w := range ws {
+		if w == -1 {
+			// product of two naturals: uninterpreted in the abstract variant (keeps the arithmetic linear)
+			if abstract {
+				h = append(h, "(declare-fun natmul (Int Int) Int)")
+			} else {
+				h = append(h, "(define-fun natmul ((x Int) (y Int)) Int (* x y))")
+			}
+			continue
+		}
 		if abstract {
 			// sound abstraction: the conversions are uninterpreted and constrained only by the lemma
 			// instances emitted at their uses
@@ -302,7 +316,7 @@ func trunc(s string, n int) string {
 }
 
 // query builds the SMT text for an obligation at script position p with goal g.
-func (s *Script) query(p int, goal string, wantModel bool, abstract bool) string {
+func (s *Script) query(p int, goal string, wantModel bool, abstract bool, depth int) string {
 	var b strings.Builder
 	b.WriteString("(set-option :produce-models true)\n")
 	b.WriteString("(set-logic ALL)\n")
@@ -310,7 +324,11 @@ func (s *Script) query(p int, goal string, wantModel bool, abstract bool) string
 		b.WriteString(l)
 		b.WriteByte('\n')
 	}
-	for _, l := range s.lines[:p] {
+	keep := s.slice(p, goal, depth)
+	for i, l := range s.lines[:p] {
+		if keep != nil && !keep[i] {
+			continue
+		}
 		b.WriteString(l)
 		b.WriteByte('\n')
 	}
@@ -329,4 +347,156 @@ func sortedKeys(m map[string]string) []string {
 	}
 	sort.Strings(ks)
 	return ks
+}
+
+// ---- relevance slicing ----
+//
+// Dropping assumptions is sound for proving (the goal then holds under fewer hypotheses). slice
+// keeps every declaration and definition, and only those assertions that are connected to the
+// goal through at most depth steps of shared declared symbols. depth <= 0 keeps everything.
+
+type lineInfo struct {
+	kind string   // declare, define, assert, other
+	name string   // declared / defined name
+	syms []string // declared symbols mentioned (definitions expanded)
+}
+
+func tokens(l string) []string {
+	var out []string
+	cur := strings.Builder{}
+	flush := func() {
+		if cur.Len() > 0 {
+			out = append(out, cur.String())
+			cur.Reset()
+		}
+	}
+	for _, c := range l {
+		switch c {
+		case '(', ')', ' ', '\t':
+			flush()
+		case ';':
+			flush()
+			return out
+		default:
+			cur.WriteRune(c)
+		}
+	}
+	flush()
+	return out
+}
+
+func (s *Script) analyse() {
+	defs := map[string][]string{}
+	decl := map[string]bool{}
+	for i := len(s.info); i < len(s.lines); i++ {
+		l := s.lines[i]
+		toks := tokens(l)
+		li := lineInfo{kind: "other"}
+		if len(toks) >= 2 {
+			switch toks[0] {
+			case "declare-fun", "declare-const":
+				li.kind, li.name = "declare", toks[1]
+			case "define-fun":
+				li.kind, li.name = "define", toks[1]
+			case "assert":
+				li.kind = "assert"
+			}
+		}
+		s.info = append(s.info, li)
+	}
+	for i, li := range s.info {
+		if li.kind == "declare" {
+			decl[li.name] = true
+		}
+		_ = i
+	}
+	for i := range s.info {
+		li := &s.info[i]
+		if li.kind != "define" && li.kind != "assert" {
+			continue
+		}
+		if li.syms != nil {
+			if li.kind == "define" {
+				defs[li.name] = li.syms
+			}
+			continue
+		}
+		set := map[string]bool{}
+		start := 1
+		if li.kind == "define" {
+			start = 2
+		}
+		for _, t := range tokens(s.lines[i])[start:] {
+			if decl[t] {
+				set[t] = true
+			} else if d, ok := defs[t]; ok {
+				for _, x := range d {
+					set[x] = true
+				}
+			}
+		}
+		li.syms = make([]string, 0, len(set))
+		for k := range set {
+			li.syms = append(li.syms, k)
+		}
+		if li.kind == "define" {
+			defs[li.name] = li.syms
+		}
+	}
+	s.defSyms = defs
+	s.declared = decl
+}
+
+func (s *Script) slice(p int, goal string, depth int) []bool {
+	if depth <= 0 {
+		return nil
+	}
+	s.mu.Lock()
+	if len(s.info) < len(s.lines) {
+		s.analyse()
+	}
+	s.mu.Unlock()
+	rel := map[string]bool{}
+	addTok := func(t string) {
+		if s.declared[t] {
+			rel[t] = true
+		} else if d, ok := s.defSyms[t]; ok {
+			for _, x := range d {
+				rel[x] = true
+			}
+		}
+	}
+	for _, t := range tokens(goal) {
+		addTok(t)
+	}
+	keep := make([]bool, p)
+	for i := 0; i < p; i++ {
+		if s.info[i].kind != "assert" {
+			keep[i] = true
+		}
+	}
+	ubiq := func(n string) bool { return strings.HasSuffix(n, "_top0") || strings.HasSuffix(n, "_top") }
+	for d := 0; d < depth; d++ {
+		var add []string
+		for i := 0; i < p; i++ {
+			if keep[i] || s.info[i].kind != "assert" {
+				continue
+			}
+			hit := false
+			for _, sy := range s.info[i].syms {
+				if rel[sy] && !ubiq(sy) {
+					hit = true
+					break
+				}
+			}
+			if hit {
+				keep[i] = true
+				add = append(add, s.info[i].syms...)
+			}
+		}
+		for _, a := range add {
+			rel[a] = true
+		}
+	}
+	return keep
 }
